@@ -143,6 +143,12 @@ fn gen_c15(ctx: &mut Ctx) {
         sched.push("D3".to_string());
         sched.extend((0..burst / 2).map(|_| "I".to_string()));
         rd_case(ctx, 2, &content, &sched, "interrupt-burst");
+        if burst >= 65535 {
+            // the same on an ordinary 2 MiB stack (a child process): however often means however often
+            let line = format!("CHILD RD 2 {} {}", hex_of_bytes(&content), sched.join(" "));
+            let res = ctx.case(line, true, "interrupt-burst-small-stack");
+            ctx.monitor(res.starts_with("OK ") || res == "UNAVAILABLE", "C15-read-exactly-one-line", &format!("CHILD RD 2 <two frames> <{} interrupts before a byte>", burst), &res[..res.len().min(100)]);
+        }
     }
     // noise lines far longer than any frame, followed by frames
     for junk in [4095usize, 4096, 4097, 5000, 8193, 20000] {
